@@ -353,6 +353,11 @@ func registerVrt(e *engine) {
 		}
 		return nil
 	})
+	e.reg(vrtPath+"PermuteMaps", func(fr *frame, fn *ssa.Function, a []value) value {
+		on, _ := a[0].(bool)
+		fr.m.permuteOff = !on
+		return nil
+	})
 	e.reg(vrtPath+"Native", func(fr *frame, fn *ssa.Function, a []value) value { return false })
 	e.reg(vrtPath+"Symbolic", func(fr *frame, fn *ssa.Function, a []value) value {
 		return fr.m.concrete == nil
